@@ -322,7 +322,27 @@ def check_exit_basic(case, tr, v):
 
 
 def run_traces(pid, tier, rng, v):
-    return {"traces": 0}
+    """larger seeded random graphs (vlib/randcfg.py), judged by the same specification through MC_Deps family ext"""
+    from .. import randcfg
+    n = 200 if tier == "quick" else 4000
+    cases = [{"cfg": randcfg.deps_cfg(rng)} for _ in range(n)]
+    r = core.run_tlc("MC_Deps.tla", "MC_Deps_ext.cfg", timeout=3000,
+                     extra_files={"ext_cases.ndjson": "\n".join(json.dumps(c) for c in cases) + "\n"})
+    if r.violation:
+        raise core.InfraError("TLC: invariant violated in MC_Deps/ext:\n" + r.raw_tail[-2000:])
+    runs = replay(r.emitted, rng)
+    nt = 0
+    for c, tr in zip(r.emitted, runs):
+        if nontrivial(pid, c):
+            nt += 1
+        if check_exit_basic(c, tr, v):
+            continue
+        for asp in ASPECTS[pid]:
+            if asp(c, tr, v):
+                break
+    mid = r.emitted[len(r.emitted) // 2]
+    return {"traces": len(r.emitted), "nontrivial": nt, "tlc_states": r.states,
+            "samples": [{"family": "ext (random)", "yaml": concretise.to_yaml(mid["cfg"]), "expected": {k: mid["exp"][k] for k in ("accept", "scope", "cycle", "missP", "missS")}}]}
 
 
 # --------------------------------------------------------------------------- C16
